@@ -63,6 +63,12 @@ THEOREMS = [
     "Jinns.LossTerms.modelObs03ODE_reads_lossODE",
     "Jinns.LossTerms.modelObs03Statio_reads_lossStatio",
     "Jinns.LossTerms.modelObs03NonStatio_reads_lossNonStatio",
+    "Jinns.LossTerms.lossStatioSpinnDyn_total_eq_sum",
+    "Jinns.LossTerms.lossNonStatioSpinnDyn_total_eq_sum",
+    "Jinns.LossTerms.lossStatioSpinnDyn_dyn",
+    "Jinns.LossTerms.lossNonStatioSpinnDyn_dyn",
+    "Jinns.LossTerms.lossStatioSpinnDyn_none",
+    "Jinns.LossTerms.lossNonStatioSpinnDyn_none",
 ]
 LEAN_MODULES = ["JinnsProofs.C03", "JinnsProofs.C03C05Holds"]
 RULE = ("cases = (loss kind, dimension, network, equation with 1..3 residual components, weights, subset of "
@@ -200,6 +206,33 @@ def _classes():
         th = jnp.reshape(params.eq_params["theta"], (1,))
         return jnp.concatenate([inp, uval, J.reshape(-1), th])
 
+    def peval_last(terms, Z):
+        """polynomial of the entries of the last axis of Z, by repeated multiplication (exact on small dyadics)"""
+        tot = jnp.zeros(Z.shape[:-1], dtype=Z.dtype)
+        for coef, e in terms:
+            t = jnp.ones(Z.shape[:-1], dtype=Z.dtype) * coef
+            for j, k in enumerate(e):
+                for _ in range(k):
+                    t = t * Z[..., j]
+            tot = tot + t
+        return tot
+
+    def zgrid(A, ufun, params):
+        """the same z-vector on the whole tensor grid of the coordinate columns of A (a separable network):
+        forward-mode derivatives, one jvp per coordinate"""
+        n_in = A.shape[1]
+        coords = jnp.stack(jnp.meshgrid(*[A[:, j] for j in range(n_in)], indexing="ij"), axis=-1)
+        U = ufun(A)
+        dU = [jax.jvp(ufun, (A,), (jnp.zeros_like(A).at[:, j].set(1.0),))[1] for j in range(n_in)]
+        J = jnp.stack(dU, axis=-1)  # (grid, m, n_in): same layout as jacfwd's (m, n_in)
+        th = jnp.broadcast_to(jnp.reshape(params.eq_params["theta"], (1,)), U.shape[:-1] + (1,))
+        return jnp.concatenate([coords, U, J.reshape(U.shape[:-1] + (-1,)), th], axis=-1)
+
+    def is_spinn(u):
+        from jinns.utils._spinn import SPINN
+
+        return isinstance(u, SPINN)
+
     class EqODE(ODE):
         qs: tuple = eqx.field(static=True, kw_only=True, default=())
 
@@ -212,6 +245,9 @@ def _classes():
         qs: tuple = eqx.field(static=True, kw_only=True, default=())
 
         def equation(self, x, u, params):
+            if is_spinn(u):
+                Z = zgrid(x, lambda a: u(a, params), params)
+                return jnp.stack([peval_last(qq, Z) for qq in self.qs], axis=-1)
             z = zvec(x, lambda a: u(a, params), params)
             return jnp.stack([peval_jax(qq, z) for qq in self.qs])
 
@@ -219,6 +255,9 @@ def _classes():
         qs: tuple = eqx.field(static=True, kw_only=True, default=())
 
         def equation(self, t, x, u, params):
+            if is_spinn(u):
+                Z = zgrid(jnp.concatenate([t, x], axis=1), lambda a: u(a[:, :1], a[:, 1:], params), params)
+                return jnp.stack([peval_last(qq, Z) for qq in self.qs], axis=-1)
             inp = jnp.concatenate([t, x])
             z = zvec(inp, lambda a: u(a[:1], a[1:], params), params)
             return jnp.stack([peval_jax(qq, z) for qq in self.qs])
@@ -574,7 +613,7 @@ def lean_case(case, arrays):
            "dyn": None, "ic": None, "norm": None, "boundary": None, "obs": None}
     if case.get("dyn"):
         out["dyn"] = {"w": case["dyn"]["w"],
-                      "tab": [[qrow(r), qrow(ex.residual(case["dyn"]["eq"], r))] for r in _uniq(inside)]}
+                      "tab": [[qrow(r), qrow(ex.residual(case["dyn"]["eq"], r))] for r in _uniq(grid_of(inside))]}
     if case.get("ic"):
         c = case["ic"]
         if kind == "ode":
@@ -988,7 +1027,7 @@ def gen_case(rng, kind, d, m, n, ncomp, subset, source="hand", wvec=None):
         if "vec" in case["dyn"]["w"]:
             w2 = {"vec": [q(Fr(rng.randint(1, 6), 2)) for _ in range(ncomp)]}
         case["variants"] = {"scale": q(Fr(rng.choice([-3, -1, 1, 3, 5, 6]), 2)), "w2": w2,
-                            "perm": rng.sample(range(n), n)}
+                            "perm": rng.sample(range(n), n), "reweight": rng.choice(["fresh", "tree_at"])}
     if "ic" in subset and kind != "statio":
         case["ic"] = gen_ic(rng, case)
     if "norm" in subset and kind != "ode":
@@ -1031,6 +1070,16 @@ def gen_cases(rng, tier):
                 ncomp = rng.choice([1, 2, 3])
                 source = "gen" if rng.random() < 0.3 else "hand"
                 cases.append(gen_case(rng, kind, d, m, n, ncomp, sub, source))
+    # separable networks (SPINN branch of `dynamic_loss_apply`): the residual is evaluated on the tensor grid of
+    # the coordinate columns of the batch and the term is the mean over that grid
+    for _ in range(1 if tier == "quick" else 6):
+        for kind, d in (("statio", 1), ("statio", 2), ("nonstatio", 1), ("nonstatio", 2)):
+            D = d + (1 if kind == "nonstatio" else 0)
+            for n in ((rng.choice([1, 2]), 4 if D <= 2 else 2) if tier == "quick" else (1, 2, 4 if D <= 2 else 2)):
+                m, ncomp = rng.choice([1, 2]), rng.choice([1, 2, 3])
+                case = gen_case(rng, kind, d, m, n, ncomp, {"dyn"})
+                case["spinn"], case["u"] = gen_spinn(rng, kind, d, m, R=rng.choice([1, 2]))
+                cases.append(case)
     if tier == "thorough":
         # every subset of configured terms, once per kind
         for kind, d in kinds:
@@ -1073,19 +1122,43 @@ def run_impl(case):
             c2["dyn"] = {**case["dyn"], "w": w}
             return c2
 
-        scaled = dyn_of(with_w(W_mul(v["scale"], case["dyn"]["w"])))
+        def dyn_of_w(w):
+            """the dynamic term under another weight: a freshly constructed loss, or (reweight = tree_at) the
+            SAME loss object whose weight leaf is replaced with `eqx.tree_at` after construction -- a loss that
+            caches anything derived from its weights at construction time answers with the stale weight"""
+            if v.get("reweight") != "tree_at":
+                return dyn_of(with_w(w))
+            import equinox as eqx
+            import numpy as np
+
+            loss, params, batch = build(case, arrays)
+            old = loss.loss_weights.dyn_loss
+            neww = _w_jax(w)
+            if hasattr(old, "shape") and not hasattr(neww, "shape"):
+                import jax.numpy as jnp
+                neww = jnp.full(old.shape, neww)
+            loss2 = eqx.tree_at(lambda l: l.loss_weights.dyn_loss, loss, neww)
+            _, terms = loss2.evaluate(params, batch)
+            return q(np.asarray(terms["dyn_loss"]).item())
+
+        dyn_of_w_ = dyn_of_w
+        scaled = dyn_of_w_(W_mul(v["scale"], case["dyn"]["w"]))
         w2 = v["w2"]
         if "vec" in case["dyn"]["w"] and "scalar" in w2:
             w2 = {"vec": [w2["scalar"]] * len(case["dyn"]["w"]["vec"])}
-        with_w2 = dyn_of(with_w(w2))
-        with_sum = dyn_of(with_w(W_add(case["dyn"]["w"], w2)))
+        with_w2 = dyn_of_w_(w2)
+        with_sum = dyn_of_w_(W_add(case["dyn"]["w"], w2))
         perm = v["perm"] if sorted(v["perm"]) == list(range(n)) else list(reversed(range(n)))
         permuted = dyn_of(case, with_inside(case, arrays, [arrays["inside"][i] for i in perm]))
         halves = None
-        if n % 2 == 0 and n >= 2:
+        if n % 2 == 0 and n >= 2 and not case.get("spinn"):  # (the grid of a half batch is not half of the grid)
             halves = [dyn_of(case, with_inside(case, arrays, arrays["inside"][: n // 2])),
                       dyn_of(case, with_inside(case, arrays, arrays["inside"][n // 2:]))]
-        dyn_obs = {"w": case["dyn"]["w"], "residuals": [qrow(ex.residual(case["dyn"]["eq"], r)) for r in arrays["inside"]],
+        res_rows = arrays["inside"]
+        if case.get("spinn"):
+            cols = [[r[j] for r in res_rows] for j in range(len(res_rows[0]))]
+            res_rows = [list(pt) for pt in itertools.product(*cols)]
+        dyn_obs = {"w": case["dyn"]["w"], "residuals": [qrow(ex.residual(case["dyn"]["eq"], r)) for r in res_rows],
                    "scale": v["scale"], "scaled": scaled, "w2": w2, "with_w2": with_w2, "with_sum": with_sum,
                    "permuted": permuted, "halves": halves}
         values += [scaled, with_w2, with_sum, permuted] + (halves or [])
@@ -1162,6 +1235,10 @@ def tags(case, obs):
         out.append(f"ncomp={len(case['dyn']['eq'])}")
         out.append("weight=" + ("scalar" if "scalar" in case["dyn"]["w"] else "vec"))
     out.append("ulp_rule" if F(obs["tol"]) != 0 else "exact")
+    if case.get("spinn"):
+        out.append("network=spinn")
+    if case.get("variants"):
+        out.append("reweight=" + case["variants"].get("reweight", "fresh"))
     return out
 
 
